@@ -1,11 +1,11 @@
-(* Obligation C10/power_one_is_multiplicative.  Statement as printed by Coq from Inferno.C10.KernelProofs; proof by reference.
+(* Obligation C10/power_one_is_multiplicative.  Statement as printed by Coq from Inferno.C10.KernelRange; proof by reference.
    This file contains nothing else, so the statement cannot be weakened quietly. *)
 From Coq Require Import List ZArith Bool Arith Reals Lra Lia Permutation.
-From Inferno Require Import Base.Num Base.NumR Gen.Bounding C10.Updater C10.KernelProofs C10.AccProofs C10.OrderProofs C10.WorldProofs C10.UpdateProofs C10.InterleaveProofs.
+From Inferno Require Import Base.Num Base.NumR Gen.Bounding C10.Updater C10.KernelAlgebra C10.KernelRange.
 Import ListNotations.
 Open Scope R_scope.
 Theorem power_one_is_multiplicative : forall (x : R) (u : T RN) (lim : R),
   (x <= lim -> bound_upper_power RN x u lim 1 = bound_upper_multiplicative RN x u lim) /\
   (lim <= x -> bound_lower_power RN x u lim 1 = bound_lower_multiplicative RN x u lim).
-Proof. exact (@Inferno.C10.KernelProofs.power_one_is_multiplicative). Qed.
+Proof. exact (@Inferno.C10.KernelRange.power_one_is_multiplicative). Qed.
 Print Assumptions power_one_is_multiplicative.
